@@ -436,6 +436,8 @@ func tablesC01(c *Ctx) {
 		c.Unk("C01.casts", "DataType", 0, "anchors not found")
 	}
 
+	castFoldC01(c, tt)
+	opPairsC01(c, tt)
 	// ---- literals ----
 	literalsC01(c, tt)
 	// ---- segments ----
@@ -681,4 +683,152 @@ func segmentsC01(c *Ctx) {
 			c.Check(isT, "C01.segments", "(*Parser).parseTarget: IsTarget set", fd.Pos(), "the INTO measurement must be marked IsTarget: true")
 		}
 	}
+}
+
+// castFoldC01: the type word after `::` is matched whatever its case.
+func castFoldC01(c *Ctx, tt *tokenTable) {
+	p := c.P
+	c.Rule("C01.castfold", "ParseVarRef, evaluated with the token after `::` bound to IDENT and its text to each cast name in lower, upper and mixed case, stores the same data type for all three spellings: the cast names are words of a case-insensitive language, like every keyword")
+	f := p.SSAFunc(p.Method("Parser", "ParseVarRef"))
+	scan := p.SSAFunc(p.Method("Parser", "Scan"))
+	strM := p.SSAFunc(p.Method("DataType", "String"))
+	dt := p.Named("DataType")
+	if f == nil || scan == nil || strM == nil || dt == nil {
+		c.Unk("C01.castfold", "(*Parser).ParseVarRef", 0, "anchors not found")
+		return
+	}
+	var scans []*ssa.Call
+	for _, b := range f.Blocks {
+		for _, in := range b.Instrs {
+			if call, ok := in.(*ssa.Call); ok && call.Call.StaticCallee() == scan {
+				scans = append(scans, call)
+			}
+		}
+	}
+	if len(scans) < 2 {
+		c.Unk("C01.castfold", "(*Parser).ParseVarRef: scans", f.Pos(), "the `::` probe and the scan of the type word were not found")
+		return
+	}
+	var typeStores []*ssa.Store
+	for _, b := range f.Blocks {
+		for _, in := range b.Instrs {
+			if st, ok := in.(*ssa.Store); ok {
+				if fa, ok := st.Addr.(*ssa.FieldAddr); ok && fieldNameOf(fa) == "Type" && p.TypeStr(fa.X.Type()) == "*VarRef" {
+					typeStores = append(typeStores, st)
+				}
+			}
+		}
+	}
+	eval := func(word string) (int64, bool) {
+		s := p.newSCCP()
+		s.hook = func(call *ssa.Call, args []cval) ([]cval, bool) {
+			if call == scans[0] {
+				return []cval{tt.cv("DOUBLECOLON"), cTop, cTop}, true
+			}
+			if call.Call.StaticCallee() == scan {
+				return []cval{tt.cv("IDENT"), cTop, cConst(constant.MakeString(word))}, true
+			}
+			return nil, false
+		}
+		r := s.run(f, nil, 0)
+		for _, st := range typeStores {
+			if !r.execB[st.Block().Index] {
+				continue
+			}
+			if v := r.get(st.Val); v.isPlain() {
+				n, ok := constant.Int64Val(constant.ToInt(v.v))
+				return n, ok
+			}
+		}
+		return 0, false
+	}
+	sc := p.Types.Scope()
+	n := 0
+	s0 := p.newSCCP()
+	for _, name := range sc.Names() {
+		k, ok := sc.Lookup(name).(*types.Const)
+		if !ok || !types.Identical(k.Type(), dt) {
+			continue
+		}
+		v, _ := constant.Int64Val(k.Val())
+		sv, ok := s0.evalConst(p.Method("DataType", "String"), cConst(constant.MakeInt64(v)))
+		if !ok || !sv.isPlain() || sv.v.Kind() != constant.String {
+			continue
+		}
+		word := constant.StringVal(sv.v)
+		lo, okLo := eval(word)
+		if !okLo || lo != v {
+			continue // not a cast name ParseVarRef reads as an identifier (field, tag, unknown)
+		}
+		n++
+		key := "ParseVarRef: ::" + word
+		up, okUp := eval(strings.ToUpper(word))
+		mx, okMx := eval(strings.ToUpper(word[:1]) + word[1:])
+		if okUp && okMx && up == lo && mx == lo {
+			c.OK("C01.castfold", key, f.Pos(), "lower, upper and mixed case give the same type")
+		} else {
+			c.Bad("C01.castfold", key, f.Pos(), "the type word is matched case-sensitively: ::"+strings.ToUpper(word)+" does not give the type ::"+word+" gives")
+		}
+	}
+	c.Floor("C01.castfold", n, 5)
+}
+
+// opPairsC01: a clause that accepts =, != and =~ accepts !~ as well.
+func opPairsC01(c *Ctx, tt *tokenTable) {
+	p := c.P
+	c.Rule("C01.oppairs", "in every parse function that compares a scanned token with the comparison operators, the set it accepts is closed under negation as far as it goes: where `=`, `!=` and one of `=~` / `!~` are accepted, so is the other (WITH KEY !~ /re/ is as legal as WITH KEY =~ /re/)")
+	n := 0
+	for _, fb := range p.funcBodies() {
+		if fb.Lit != nil || !parserTypes[recvTypeName(fb.Decl)] {
+			continue
+		}
+		seen := map[string]token.Pos{}
+		note := func(e ast.Expr) {
+			tv, ok := p.Info.Types[e]
+			if !ok || tv.Value == nil || !types.Identical(tv.Type, tt.Type) {
+				return
+			}
+			v, _ := constant.Int64Val(constant.ToInt(tv.Value))
+			if nm := tt.Name[v]; nm == "EQ" || nm == "NEQ" || nm == "EQREGEX" || nm == "NEQREGEX" {
+				if _, has := seen[nm]; !has {
+					seen[nm] = e.Pos()
+				}
+			}
+		}
+		ast.Inspect(fb.Body, func(nd ast.Node) bool {
+			switch x := nd.(type) {
+			case *ast.BinaryExpr:
+				if x.Op == token.EQL {
+					note(x.X)
+					note(x.Y)
+				}
+			case *ast.CaseClause:
+				for _, e := range x.List {
+					note(e)
+				}
+			}
+			return true
+		})
+		if len(seen) == 0 {
+			continue
+		}
+		_, eq := seen["EQ"]
+		_, neq := seen["NEQ"]
+		_, re := seen["EQREGEX"]
+		_, nre := seen["NEQREGEX"]
+		if !(eq && neq && (re || nre)) {
+			continue
+		}
+		n++
+		key := fb.Name + ": comparison operators accepted"
+		switch {
+		case re && nre:
+			c.OK("C01.oppairs", key, seen["EQ"], "=, !=, =~ and !~")
+		case re:
+			c.Bad("C01.oppairs", key, seen["EQREGEX"], "=, != and =~ are accepted but !~ is not: the negated regex form of the clause is rejected")
+		default:
+			c.Bad("C01.oppairs", key, seen["NEQREGEX"], "=, != and !~ are accepted but =~ is not: the regex form of the clause is rejected")
+		}
+	}
+	c.Floor("C01.oppairs", n, 1)
 }
